@@ -18,12 +18,22 @@ pub enum V {
     Fn(Arc<Closure>),
     Builtin(&'static str),
     Gen(Arc<Mutex<GenState>>),
+    /// lazy adaptor over an iterable: (kind, source, function)
+    Adapt(Arc<(String, V, V)>),
 }
 
 #[derive(Debug, Default, Clone)]
 pub struct MapData {
     pub entries: Vec<(V, V)>,
     pub type_name: Option<String>,
+    /// metakey entries other than @type ("@+", "@display", ...)
+    pub meta: Vec<(String, V)>,
+}
+
+impl MapData {
+    pub fn meta_get(&self, key: &str) -> Option<V> {
+        self.meta.iter().find(|(k, _)| k == key).map(|(_, v)| v.clone())
+    }
 }
 
 #[derive(Debug)]
@@ -80,7 +90,7 @@ pub fn vtuple(v: Vec<V>) -> V {
     V::Tuple(Arc::new(v))
 }
 pub fn vmap(entries: Vec<(V, V)>) -> V {
-    V::Map(Arc::new(Mutex::new(MapData { entries, type_name: None })))
+    V::Map(Arc::new(Mutex::new(MapData { entries, type_name: None, meta: vec![] })))
 }
 
 impl V {
@@ -99,7 +109,7 @@ impl V {
             V::Range(..) => "Range".into(),
             V::Fn(c) => if c.is_generator { "Generator".into() } else { "Function".into() },
             V::Builtin(_) => "Function".into(),
-            V::Gen(_) => "Iterator".into(),
+            V::Gen(_) | V::Adapt(_) => "Iterator".into(),
         }
     }
 }
@@ -138,7 +148,7 @@ pub fn display(v: &V, contained: bool) -> String {
             format!("{}{}{}", a.map(|x| x.to_string()).unwrap_or_default(), if *inc { "..=" } else { ".." }, b.map(|x| x.to_string()).unwrap_or_default())
         }
         V::Fn(_) | V::Builtin(_) => "||".into(),
-        V::Gen(_) => "Iterator".into(),
+        V::Gen(_) | V::Adapt(_) => "Iterator".into(),
     }
 }
 
@@ -209,6 +219,9 @@ pub fn values_equal(a: &V, b: &V) -> Result<bool, Ctl> {
             true
         }
         (V::Map(x), V::Map(y)) => {
+            if !x.lock().unwrap().meta.is_empty() || !y.lock().unwrap().meta.is_empty() {
+                return unjudged("equality on maps with metakeys");
+            }
             let (x, y) = if Arc::ptr_eq(x, y) { let d = x.lock().unwrap().clone(); (d.clone(), d) } else { (x.lock().unwrap().clone(), y.lock().unwrap().clone()) };
             if x.entries.len() != y.entries.len() {
                 return Ok(false);
@@ -240,7 +253,7 @@ pub fn values_equal(a: &V, b: &V) -> Result<bool, Ctl> {
             }
             norm(a1, b1, *i1) == norm(a2, b2, *i2)
         }
-        (V::Fn(_) | V::Builtin(_) | V::Gen(_), _) | (_, V::Fn(_) | V::Builtin(_) | V::Gen(_)) => return unjudged("equality on functions/iterators"),
+        (V::Fn(_) | V::Builtin(_) | V::Gen(_) | V::Adapt(_), _) | (_, V::Fn(_) | V::Builtin(_) | V::Gen(_) | V::Adapt(_)) => return unjudged("equality on functions/iterators"),
         _ => false,
     })
 }
@@ -314,7 +327,7 @@ pub fn arith(op: Op, a: &V, b: &V) -> R {
         (Op::Add, Map(x), Map(y)) => {
             let mut d = x.lock().unwrap().clone();
             let y = y.lock().unwrap().clone();
-            if d.type_name.is_some() || y.type_name.is_some() {
+            if d.type_name.is_some() || y.type_name.is_some() || !d.meta.is_empty() || !y.meta.is_empty() {
                 return unjudged("adding maps with metamaps");
             }
             for (k, v) in y.entries {
@@ -405,7 +418,7 @@ pub fn run_program(prog: &[E], type_checks: bool) -> ModelOut {
     let (result, unj, thrown) = match r {
         Ok(v) => (Some(Ok(display(&v, false))), None, None),
         Err(Ctl::Err(t, m)) => {
-            let thrown = t.as_ref().map(|v| display(v, false));
+            let thrown = t.as_ref().map(|_| m.clone());
             (Some(Err(m)), None, thrown)
         }
         Err(Ctl::Unjudged(m)) => (None, Some(m), None),
@@ -467,6 +480,7 @@ impl Interp {
             "size" => Ok(V::Builtin("size")),
             "type" => Ok(V::Builtin("type")),
             "copy" => Ok(V::Builtin("copy")),
+            "assert" => Ok(V::Builtin("assert")),
             _ => err(format!("'{name}' not found")),
         }
     }
@@ -481,11 +495,54 @@ impl Interp {
                     if spec.is_some() {
                         return unjudged("format spec in the core model");
                     }
-                    s.push_str(&display(&v, false));
+                    let shown = self.show(&v, false)?;
+                    s.push_str(&shown);
                 }
             }
         }
         Ok(vstr(&s))
+    }
+
+    /// display with @display support
+    pub fn show(&mut self, v: &V, contained: bool) -> Result<String, Ctl> {
+        Ok(match v {
+            V::Map(m) => {
+                let (disp, entries) = {
+                    let d = m.lock().unwrap();
+                    (d.meta_get("@display"), d.entries.clone())
+                };
+                if let Some(f) = disp {
+                    match self.call(&f, vec![], Some(v.clone()))? {
+                        V::Str(s) => s.to_string(),
+                        other => return err(format!("expected String from @display, found {}", other.type_name())),
+                    }
+                } else if entries.is_empty() {
+                    "{}".into()
+                } else {
+                    let mut parts = vec![];
+                    for (k, x) in &entries {
+                        parts.push(format!("{}: {}", display(k, false), self.show(x, true)?));
+                    }
+                    format!("{{{}}}", parts.join(", "))
+                }
+            }
+            V::List(l) => {
+                let l = l.lock().unwrap().clone();
+                let mut parts = vec![];
+                for x in &l {
+                    parts.push(self.show(x, true)?);
+                }
+                format!("[{}]", parts.join(", "))
+            }
+            V::Tuple(t) => {
+                let mut parts = vec![];
+                for x in t.iter() {
+                    parts.push(self.show(x, true)?);
+                }
+                format!("({})", parts.join(", "))
+            }
+            other => display(other, contained),
+        })
     }
 
     pub fn as_index(v: &V) -> Result<i64, Ctl> {
@@ -563,10 +620,16 @@ impl Interp {
                     Some((_, v)) => Ok(v.clone()),
                     None => {
                         drop(d);
-                        unjudged(format!("'{key}' not found in map (core-library fallback not modelled)"))
+                        const MAP_FNS: [&str; 22] = ["clear", "contains_key", "extend", "get", "get_index", "get_meta", "insert", "is_empty", "keys", "remove", "sort", "update", "values", "with_meta", "size", "iter", "each", "keep", "fold", "to_tuple", "to_list", "count"];
+                        if MAP_FNS.contains(&key) || key.len() > 3 {
+                            unjudged(format!("'{key}' not found in map (core-library fallback not modelled)"))
+                        } else {
+                            err(format!("'{key}' not found in map"))
+                        }
                     }
                 }
             }
+            V::Null | V::Bool(_) => err(format!("expected a value that supports '.' access, found {}", c.type_name())),
             _ => unjudged("access on a non-map (core-library lookup not modelled)"),
         }
     }
@@ -653,6 +716,38 @@ impl Interp {
                     }
                     if out.len() > 100_000 {
                         return unjudged("endless generator");
+                    }
+                }
+                out
+            }
+            V::Adapt(a) => {
+                let (kind, src, f) = (&a.0, &a.1, &a.2);
+                let mut out = vec![];
+                // the source is pulled one element at a time, the function runs per element
+                let lazy_src = matches!(src, V::Gen(_));
+                let items = if lazy_src { vec![] } else { self.iterate(src)? };
+                let mut i = 0;
+                loop {
+                    let item = if let V::Gen(g) = src {
+                        match crate::modelgen::gen_next(self, g)? {
+                            Some(v) => v,
+                            None => break,
+                        }
+                    } else {
+                        if i >= items.len() {
+                            break;
+                        }
+                        i += 1;
+                        items[i - 1].clone()
+                    };
+                    let r = self.call(f, vec![item.clone()], None)?;
+                    match kind.as_str() {
+                        "each" => out.push(r),
+                        _ => match r {
+                            V::Bool(true) => out.push(item),
+                            V::Bool(false) => {}
+                            other => return err(format!("expected a Bool from the keep predicate, found {}", other.type_name())),
+                        },
                     }
                 }
                 out
@@ -951,7 +1046,7 @@ impl Interp {
     fn call_builtin(&mut self, name: &str, args: Vec<V>) -> R {
         match (name, args.as_slice()) {
             ("print", [v]) => {
-                let s = display(v, false);
+                let s = self.show(v, false)?;
                 self.print_line(&s);
                 Ok(V::Null)
             }
@@ -970,6 +1065,11 @@ impl Interp {
                 _ => return unjudged("size of other values"),
             })),
             ("type", [v]) => Ok(vstr(&v.type_name())),
+            ("assert", [v]) => match v {
+                V::Bool(true) => Ok(V::Null),
+                V::Bool(false) => err("Assertion failed"),
+                _ => unjudged("assert with a non-bool"),
+            },
             ("copy", [v]) => Ok(match v {
                 V::List(l) => vlist(l.lock().unwrap().clone()),
                 V::Map(m) => V::Map(Arc::new(Mutex::new(m.lock().unwrap().clone()))),
@@ -1073,7 +1173,8 @@ impl Interp {
                         }
                     }
                     if k.starts_with('@') {
-                        return unjudged("metakeys in the core model");
+                        d.meta.push((k.clone(), val));
+                        continue;
                     }
                     match d.entries.iter_mut().find(|(k2, _)| matches!(k2, V::Str(s) if &**s == k.as_str())) {
                         Some(e) => e.1 = val,
@@ -1127,8 +1228,24 @@ impl Interp {
                                 "to_tuple" => return Ok(vtuple(self.iterate(&cv)?)),
                                 "to_list" => return Ok(vlist(self.iterate(&cv)?)),
                                 "count" => return Ok(V::Int(self.iterate(&cv)?.len() as i64)),
+                                "consume" => {
+                                    self.iterate(&cv)?;
+                                    return Ok(V::Null);
+                                }
                                 _ => {}
                             }
+                        }
+                        if !matches!(cv, V::Map(_)) && matches!(k.as_str(), "each" | "keep") && args.len() == 1 {
+                            let f = self.eval(&args[0].0)?;
+                            return Ok(V::Adapt(Arc::new((k.clone(), cv, f))));
+                        }
+                        if !matches!(cv, V::Map(_)) && k == "fold" && args.len() == 2 {
+                            let mut acc = self.eval(&args[0].0)?;
+                            let f = self.eval(&args[1].0)?;
+                            for item in self.iterate(&cv)? {
+                                acc = self.call(&f, vec![acc, item], None)?;
+                            }
+                            return Ok(acc);
                         }
                         let f = self.access(&cv, k)?;
                         (f, Some(cv))
@@ -1334,8 +1451,17 @@ impl Interp {
             E::Throw(v) => {
                 let val = self.eval(v)?;
                 match &val {
+                    // a rethrown runtime error keeps its (unprescribed) text
+                    V::Str(s) if s.contains('\u{1}') => Err(Ctl::Err(None, "rethrown runtime error".into())),
                     V::Str(s) => Err(Ctl::Err(Some(val.clone()), s.to_string())),
-                    V::Map(_) => Err(Ctl::Err(Some(val.clone()), "<thrown map>".into())),
+                    V::Map(m) => {
+                        if m.lock().unwrap().meta_get("@display").is_none() {
+                            return unjudged("throwing a map without @display");
+                        }
+                        let shown = self.show(&val, false)?;
+                        Err(Ctl::Err(Some(val.clone()), shown))
+                    }
+                    V::Int(_) | V::Float(_) => Err(Ctl::Err(Some(val.clone()), display(&val, false))),
                     _ => unjudged("throwing a value that is neither a string nor a map"),
                 }
             }
@@ -1492,7 +1618,7 @@ impl Interp {
                         return unjudged("printing the text of a runtime error");
                     }
                 }
-                let s = display(&v, false);
+                let s = self.show(&v, false)?;
                 if s.contains('\u{1}') {
                     return unjudged("printing the text of a runtime error");
                 }
@@ -1555,6 +1681,20 @@ impl Interp {
             _ => {
                 let lv = self.eval(l)?;
                 let rv = self.eval(r)?;
+                if let V::Map(m) = &lv {
+                    let f = m.lock().unwrap().meta_get(&format!("@{}", op.text()));
+                    if let Some(f) = f {
+                        return self.call(&f, vec![rv], Some(lv.clone()));
+                    }
+                    if !m.lock().unwrap().meta.is_empty() {
+                        return unjudged("operator fallback on objects is judged by C17");
+                    }
+                }
+                if let V::Map(m) = &rv {
+                    if !m.lock().unwrap().meta.is_empty() {
+                        return unjudged("right-operand overloads are judged by C17");
+                    }
+                }
                 arith(op, &lv, &rv)
             }
         }
